@@ -252,6 +252,22 @@ def lib_axioms():
                     patterns=[to(v, n)]))
         A.append(FA([s], z3.And(fits(fr(s), ln(s)), to(fr(s), ln(s)) == s), patterns=[fr(s)]))
     A.append(FA([v, n], z3.Implies(fits_bytes(v, n), v >= 0), patterns=[fits_bytes(v, n)]))
+    for wd in (0, 1, 2, 3, 4, 8):
+        A.append(FA([v], fits_bytes(v, wd) == z3.And(0 <= v, v < 256 ** wd), patterns=[fits_bytes(v, wd)]))
+        A.append(FA([v], fits_signed(v, wd) == (z3.And(-(256 ** wd // 2) <= v, v < 256 ** wd // 2) if wd else v == 0),
+                    patterns=[fits_signed(v, wd)]))
+    # fixed-width value laws of int.from_bytes / int.to_bytes (unsigned)
+    for wd in (1, 2, 3, 4, 8):
+        for bo, fr, to in (("little", le_val, le_bytes), ("big", be_val, be_bytes)):
+            pw = lambda kk: (256 ** kk) if bo == "little" else (256 ** (wd - 1 - kk))
+            val = sum((at(s, kk) * pw(kk) for kk in range(wd)), z3.IntVal(0))
+            A.append(FA([s], z3.Implies(ln(s) == wd, fr(s) == val), patterns=[fr(s)]))
+            conj = [ln(to(v, wd)) == wd]
+            for kk in range(wd):
+                p_ = kk if bo == "little" else wd - 1 - kk
+                conj.append(at(to(v, wd), kk) == (v / (256 ** p_)) % 256)
+            A.append(FA([v], z3.Implies(z3.And(0 <= v, v < 256 ** wd), z3.And(*conj)), patterns=[to(v, wd)]))
+    A.append(FA([s], z3.Implies(ln(s) == 0, z3.And(le_val(s) == 0, be_val(s) == 0)), patterns=[le_val(s)]))
     # case maps
     A.append(FA([v], lower_c(v) == z3.If(z3.And(65 <= v, v <= 90), v + 32, v), patterns=[lower_c(v)]))
     A.append(FA([v], upper_c(v) == z3.If(z3.And(97 <= v, v <= 122), v - 32, v), patterns=[upper_c(v)]))
